@@ -663,3 +663,36 @@ Proof.
   eexists. eexists. eexists. eexists. eexists. split; [exact H|].
   split; [right; left; reflexivity|]. vm_compute. repeat split.
 Qed.
+
+(* ---------- non-vacuity of the remaining statements ---------- *)
+
+Lemma noforce_example :
+  (forall m, In m [nl_A; nl_B] -> flag_force (rm_flags m) = false) /\
+  exists g pool, steps nl_host (g_init 10 [], start_pool [nl_A; nl_B]) (g, pool) /\ all_done pool /\ g_epoch g = 20 /\
+                 map t_pc pool = [PDone R_OK; PDone R_OLD_LATE].
+Proof.
+  split.
+  - intros m [<-|[<-|[]]]; reflexivity.
+  - (* A and B both pass the optimistic check, A installs first, B is rejected under the lock *)
+    pose proof (run_sched_steps nl_host [0; 0; 1; 1; 0; 1; 0; 0; 1; 1; 1]%nat (g_init 10 []) (start_pool [nl_A; nl_B])) as H.
+    remember (run_sched nl_host (g_init 10 []) (start_pool [nl_A; nl_B]) [0; 0; 1; 1; 0; 1; 0; 0; 1; 1; 1]%nat) as x eqn:Ex.
+    vm_compute in Ex. subst x.
+    eexists. eexists. split; [exact H|]. split.
+    + intros t [<-|[<-|[]]]; eexists; reflexivity.
+    + split; reflexivity.
+Qed.
+
+Definition ca_msg : cl_msg :=
+  {| cm_epoch := 7; cm_flags := [78]; cm_locals := [[104; 58; 49]]; cm_content := 3; cm_route := [104; 58; 49] |}.
+
+Lemma cluster_atomic_example :
+  exists y, csteps nl_host (cg_init ps_init, cstart_pool [ca_msg]) y /\
+            cg_locked (fst y) = true /\ cg_epoch (fst y) = 0 /\ cg_meta (fst y) = Some (3, [104; 58; 49]) /\
+            cg_meta_epoch (fst y) = 7.
+Proof.
+  eexists. split.
+  - eapply csteps_step; [eapply csteps_step; [apply csteps_refl|]|].
+    + apply (cstep_thread nl_host _ _ [] _ _ []). vm_compute. reflexivity.
+    + apply (cstep_thread nl_host _ _ [] _ _ []). vm_compute. reflexivity.
+  - vm_compute. repeat split.
+Qed.
